@@ -102,6 +102,7 @@ def parse_output(out):
         res["playbacks"].append({"class": blk.group(1), "description": blk.group(2), "vals": vals})
     fails = [p for p in res["playbacks"] if p["class"] != "cover" and not any(p["description"].startswith(k) for k in IGNORED_CLASSES)]
     if fails: res["concrete_vals"] = fails[0]["vals"]; res["concrete_for"] = fails[0]["description"]
+    res["fail_playbacks"] = fails
     return res
 
 
@@ -123,7 +124,7 @@ def classify(parsed):
             "undetermined": undet, "covers_unsat": covers_bad, "covers_ok": covers_ok}
 
 
-def run_harness(ov, name, solver=None, timeout=600, unwind=None, extra=None, mem_gb=32, playback=False):
+def run_harness(ov, name, solver=None, timeout=600, unwind=None, extra=None, mem_gb=32, playback=False, should_panic=False):
     """playback=False is the deciding run; concrete playback makes CBMC orders of magnitude slower (measured: 0.3 s -> 67 s
     on the same harness), so it is requested only in a second run of a harness that was refuted."""
     cmd = ["cargo", "kani", "-Z", "function-contracts", "-Z", "stubbing", "--harness", name, "--exact", "--output-format", "regular"]
@@ -147,11 +148,16 @@ def run_harness(ov, name, solver=None, timeout=600, unwind=None, extra=None, mem
     cl = classify(parsed)
     res = {"harness": name, "cmd": " ".join(cmd), "rc": rc, "wall_s": round(time.time() - t0, 2), "timed_out": timed_out,
            "verdict": parsed["verdict"], "verification_time_s": parsed["verification_time_s"], "stubs": parsed["stubs"],
-           "concrete_vals": parsed.get("concrete_vals"), "concrete_for": parsed.get("concrete_for"), **cl}
+           "concrete_vals": parsed.get("concrete_vals"), "concrete_for": parsed.get("concrete_for"),
+           "fail_playbacks": parsed.get("fail_playbacks", []), **cl}
     if parsed["verdict"] is None and not timed_out:
         res["error_tail"] = out[-1500:]
     # status
     if timed_out or parsed["verdict"] is None: res["status"] = "infra"
+    elif should_panic:
+        # #[kani::should_panic] harness: Kani itself decides (SUCCESSFUL = it panicked as required and nothing else failed)
+        res["status"] = "discharged" if parsed["verdict"] == "SUCCESSFUL" else "refuted"
+        if res["status"] == "discharged": cl["refuted"] = []; res["refuted"] = []; res["discharged"] = res["counted"]
     elif cl["refuted"]: res["status"] = "refuted"
     elif cl["undetermined"] or cl["covers_unsat"]: res["status"] = "infra"
     elif cl["counted"] == 0: res["status"] = "infra"
